@@ -183,6 +183,9 @@ class C15:
             viol.append({'class': cls, 'signature': sig, 'seq': log.seq, 'expected': expected, 'actual': actual, 'detail': detail})
 
         docs = [docgen.Doc.from_json(d) for d in plan['docs']]
+        if not all(d.consistent() for d in docs):
+            from simkit.runner import HarnessError
+            raise HarnessError('plan document: the abstract annotation does not match its own spine operators')
         texts = [d.render() for d in docs]
         ENC = {'kern': kp.Encoding.normalizedKern, 'ekern': kp.Encoding.eKern, 'bkern': kp.Encoding.bKern, 'bekern': kp.Encoding.bEkern,
                'akern': kp.Encoding.agnosticKern, 'aekern': kp.Encoding.agnosticExtendedKern}
@@ -584,7 +587,10 @@ class C15:
             def test(ix):
                 p = build(ix)
                 try:
-                    d, e = kp.loads(docgen.Doc.from_json(p['docs'][di]).render())
+                    cand = docgen.Doc.from_json(p['docs'][di])
+                    if not cand.consistent():
+                        return False
+                    d, e = kp.loads(cand.render())
                     if e:
                         return False
                 except Exception:
